@@ -181,12 +181,21 @@ Next == CallFree \/ CallFreeExtraArgs \/ CallWithArgs \/ Run
 Spec == Init /\ [][Next]_vars
 
 \* ------------------------------------------------------------------ property clauses
-Located == last.n > 0 /\ ~last.res.raised
+\* (the clauses speak about the call that just returned; states in which the next call is being spelled repeat it)
+Returned == last.n > 0 /\ ~pend.set
+Located == Returned /\ ~last.res.raised
 ImageOK == Located => /\ Len(last.res.pts) = Len(last.ts)
                       /\ \A k \in 1..Len(last.ts) : Img(topo, last.m, last.res.pts[k].e, last.res.pts[k].p) = last.ts[k]
 PickedContains == Located => \A k \in 1..Len(last.ts) : last.res.pts[k] \in Cont(topo, last.m, last.ts[k])
-OutsideRaises == (last.n > 0 /\ \E k \in 1..Len(last.ts) : Cont(topo, last.m, last.ts[k]) = {}) => last.res.raised
-InsideLocated == (last.n > 0 /\ topo.off = {} /\ \A k \in 1..Len(last.ts) : Cont(topo, last.m, last.ts[k]) # {}) => ~last.res.raised
+OutsideRaises == (Returned /\ \E k \in 1..Len(last.ts) : Cont(topo, last.m, last.ts[k]) = {}) => last.res.raised
+InsideLocated == (Returned /\ topo.off = {} /\ \A k \in 1..Len(last.ts) : Cont(topo, last.m, last.ts[k]) # {}) => ~last.res.raised
+\* the three clauses above in one formula that computes the containing elements of every target once (what the cfgs check)
+Containment == Returned =>
+    LET C == [k \in 1..Len(last.ts) |-> Cont(topo, last.m, last.ts[k])]
+        outside == \E k \in 1..Len(last.ts) : C[k] = {}
+    IN /\ (~last.res.raised => \A k \in 1..Len(last.ts) : last.res.pts[k] \in C[k])      \* PickedContains
+       /\ (outside => last.res.raised)                                                    \* OutsideRaises
+       /\ ((topo.off = {} /\ ~outside) => ~last.res.raised)                               \* InsideLocated
 MemoSound == memo.set => ~memo.dep
 
 Emit(x) == PrintT(<<"VF", ToJson(x)>>)
